@@ -313,7 +313,7 @@ fn run_adversary<G: AffineRepr>(run: u64, case: &Case, mask: u32, seed: u64, st:
 }
 
 pub fn run(ctx: &Ctx) -> i32 {
-    let n = scaled(ctx.tier.pick(2500, 80000));
+    let n = scaled(ctx.tier.pick(2500, 40000));
     let stats = par_run(n, ctx.workers, |i, st| {
         let case = case_for(ctx.seed, ctx.tier, i);
         with_curve!(case.base.st.curve, G, run_case::<G>(i, &case, st));
